@@ -231,8 +231,10 @@ def main() -> int:
             plan[1] = [("decompile", rng.choice(["D-switch-first-lookup", "D-switch-first-lookup-2"]))] + plan[1][:1]
         sd = rng.randrange(1 << 30)
         if i % 5 == 1:   # the same kind of block open in several threads at once (per-decompiler state of the writer: loop and switch handler stacks)
-            fam = rng.choice([["D-forever", "D-forever-2"], ["D-switch", "D-nested", "D-X2"], ["D-forever", "D-forever"], ["D-loop", "D-forever-2", "D-W"]])
-            plan = [[("decompile", fam[t % len(fam)])] * rng.choice([1, 2]) for t in range(nt)]
+            fam = rng.choice([["D-forever", "D-forever-2"], ["D-switch", "D-nested", "D-X2"], ["D-forever", "D-forever"], ["D-loop", "D-forever-2", "D-W"],
+                              ["T-loops", "T-flow"], ["T-loops", "T-loops"], ["T-flow", "T-macro", "T-loops"]])
+            kind = "compile" if fam[0].startswith("T-") else "decompile"
+            plan = [[(kind, fam[t % len(fam)])] * rng.choice([1, 2]) for t in range(nt)]
             sd |= 1      # with function-call yield points
         plans.append((plan, sd, "sched" if i < n_sched else "free"))
     runs = pmap(run_plan, plans, limit=120.0, chunk=1)
